@@ -54,6 +54,11 @@ pub fn layer_build(proto: Proto, layer: Layer, keys: &LibKeys, nonce: &[u8], msg
           return Err(LibErr::other("harness: v1/v2 take no implicit assertion"));
         }
       }
+      // every fourth builder is asked twice; the second token is the one handed on (same claims, footer and assertion:
+      // it must serve exactly like the first)
+      if msg.len() % 4 == 2 {
+        let _ = b.build(keys);
+      }
       b.build(keys)
     }
   }
@@ -107,10 +112,11 @@ pub fn parse_twice<'a>(
       let r1 = p.parse(first.0, first.1).map(LayerOut::Json);
       // re-configure the same parser only where the expectation changes (an absent footer/assertion is the
       // empty one); leaving the setters alone otherwise keeps whatever the parser remembers from the first parse
-      if second.2.unwrap_or("") != first.2.unwrap_or("") {
+      // (absent -> explicit empty counts as a change of the CALLS made, although both mean "none")
+      if second.2 != first.2 {
         p.footer(second.2.unwrap_or(""));
       }
-      if proto.has_assertion() && second.3.unwrap_or("") != first.3.unwrap_or("") {
+      if proto.has_assertion() && second.3 != first.3 {
         p.assertion(second.3.unwrap_or(""));
       }
       let r2 = p.parse(second.0, second.1).map(LayerOut::Json);
